@@ -12,7 +12,7 @@ import tlcrun  # noqa: E402
 NPROC = int(os.environ.get("VERIF_NPROC", "16"))
 
 MC_INVARIANTS = ["Inv_C01_ParentChild", "Inv_C01_PinWire", "Inv_C02_RefSets", "Inv_C02_OuterPins",
-                 "Inv_C02_Dropped", "Inv_C10_Unique", "Inv_C10_LegalIds", "Inv_OracleSane", "Inv_C08_Model", "Inv_C09_Model"]
+                 "Inv_C02_Dropped", "Inv_C10_Unique", "Inv_C10_LegalIds", "Inv_OracleSane", "Inv_C08_Model", "Inv_C09_Model", "Inv_C07_Model", "Inv_CloneDefAgrees"]
 
 
 def mc_cfg(scope, depth, emit, module_consts=""):
@@ -196,7 +196,7 @@ def replay_slice(args):
     observe = chain == "observe"
     import harness
     harness.LOOKUP_VALUES = list(lookup)
-    st = {"groups": 0, "calls": 0, "ok": 0, "refused": 0, "changed_refused": 0, "unbuildable": 0,
+    st = {"groups": 0, "calls": 0, "ok": 0, "refused": 0, "timeout": 0, "changed_refused": 0, "unbuildable": 0,
           "exc": {}, "nontrivial_refused": set(), "harness_errors": [], "announcements": 0,
           "transparency_compared": 0}
     n = 0
